@@ -142,10 +142,45 @@ func paramDereferenced(par *ssa.Parameter) bool {
 // errNilEdges returns the edges on which the error produced by `call` (result
 // errIdx) is known to be nil.
 func errNilEdges(fn *ssa.Function, call *ssa.Call, errIdx int) []Edge {
-	return nilCheckEdges(fn, true, func(v ssa.Value) bool {
+	isErr := func(v ssa.Value) bool {
 		c, i, ok := callResult(v)
 		return ok && c == call && i == errIdx
-	})
+	}
+	out := nilCheckEdges(fn, true, isErr)
+	// The error may be tested after it was merged with other errors (a helper that returns the
+	// first failure, flattened into temporaries). "phi == nil" then certifies this call exactly
+	// when every other incoming value either cannot be nil where it arrives (a fresh error, a value
+	// behind its own != nil test) or arrives on a path that did not execute the call at all.
+	out = append(out, nilCheckEdges(fn, true, func(v ssa.Value) bool {
+		ph, ok := v.(*ssa.Phi)
+		if !ok {
+			return false
+		}
+		has := false
+		for i, e := range ph.Edges {
+			pred := ph.Block().Preds[i]
+			if isErr(e) {
+				has = true
+				continue
+			}
+			if definitelyNonNil(e) {
+				continue
+			}
+			if call.Block() != pred && reachPath(call.Block(), pred, nil) == nil {
+				// the call is not executed before this edge: but is the value non-nil or irrelevant? A nil
+				// arriving here means the call never ran on this path, which is not a failure of the call.
+				continue
+			}
+			// behind its own != nil test?
+			nn := nilCheckEdges(fn, false, func(w ssa.Value) bool { return w == e })
+			if len(nn) > 0 && psSearch(fn.Blocks[0], nn, nil, func(b *ssa.BasicBlock) bool { return b == pred }) == nil {
+				continue
+			}
+			return false
+		}
+		return has
+	})...)
+	return out
 }
 
 // checkResultUse applies R-A to every (pointer, error) call in fns whose callee
@@ -318,7 +353,7 @@ func reachAfter(a, b ssa.Instruction, cut []Edge) []*ssa.BasicBlock {
 		isCut[e] = true
 	}
 	for i, s := range a.Block().Succs {
-		if isCut[Edge{a.Block(), i}] {
+		if isCut[Edge{From: a.Block(), Idx: i}] {
 			continue
 		}
 		if path := reachPath(s, b.Block(), cut); path != nil {
